@@ -54,10 +54,15 @@ def Cfg.depsOf (c : Cfg) (t : Nat) : List Nat := c.deps.getD t []
 def Cfg.hardOf (c : Cfg) (t : Nat) : List Nat := c.hard.getD t []
 def Cfg.outOf (c : Cfg) (t : Nat) : Outcome := c.out.getD t .done
 
-abbrev Env := List (Option Entry)
+/-- the environment: task ↦ its entry, if any (a structure, so that updates are evaluated when they are made) -/
+structure Env where
+  get : Nat → Option Entry
 
-def Env.entry (e : Env) (t : Nat) : Option Entry := (e.getD t none)
+def upd {α : Type} (f : Nat → α) (i : Nat) (a : α) : Nat → α := fun x => if x = i then a else f x
+
+def Env.entry (e : Env) (t : Nat) : Option Entry := e.get t
 def Env.st? (e : Env) (t : Nat) : Option St := (e.entry t).map (·.st)
+def Env.set (e : Env) (t : Nat) (v : Option Entry) : Env := ⟨upd e.get t v⟩
 
 /-- `get_status(task)`: `setdefault(name, {'status': WAITING})` -/
 def Env.touch (e : Env) (t : Nat) : Env :=
@@ -172,24 +177,20 @@ structure State where
   waiting : Bool                -- the master is inside cond_var.wait()
   notified : Bool
   clock : Nat
-  execCount : List Nat
-  seen : List (Option (List (Option Entry)))   -- what each task found for its dependencies when it started
+  execCount : Nat → Nat
+  seen : Nat → Option (List (Option Entry))    -- what each task found for its dependencies when it started
   mpc : MPc
-  todo : List Nat               -- rest of the current pass
+  todo : List Nat               -- rest of the current pass (its head is the task under consideration)
   left : List Nat               -- tasks left for the next pass
   nBefore : Nat
-  wpc : List WPc
-  deriving Repr
-
-def listSet {α : Type} (l : List α) (i : Nat) (a : α) : List α := l.set i a
+  wpc : Nat → WPc
 
 /-- state at the call of `execute_tasks` (`env`, queue and its counter are those left by earlier calls) -/
 def init (c : Cfg) (env : Env) (queue : List (Option Nat)) (unfinished : Nat) (clock : Nat := 0) : State :=
-  let env := env ++ List.replicate (c.n - env.length) none
   { env := env, queue := queue, unfinished := unfinished, condOwner := none, waiting := false, notified := false,
-    clock := clock, execCount := List.replicate c.n 0, seen := List.replicate c.n none,
+    clock := clock, execCount := fun _ => 0, seen := fun _ => none,
     mpc := if c.cyclic then .raised else if c.workers = 0 then (if c.n = 0 then .qjoin else .acq) else .spawn 0,
-    todo := List.range c.n, left := [], nBefore := c.n, wpc := List.replicate c.workers .notStarted }
+    todo := List.range c.n, left := [], nBefore := c.n, wpc := fun _ => .notStarted }
 
 /-- what the master does after the last task of a pass: leave the loop, start a new pass, or go to sleep -/
 def passEnd (s : State) : State :=
@@ -210,7 +211,7 @@ def afterSpawn (c : Cfg) (k : Nat) : MPc :=
 /-- one step of the master; `kind` is the primitive the real thread announced -/
 def stepMaster (c : Cfg) (s : State) (kind : String) : Option State :=
   match s.mpc, kind with
-  | .spawn k, "tstart" => some { s with wpc := listSet s.wpc k .begin, mpc := afterSpawn c k }
+  | .spawn k, "tstart" => some { s with wpc := upd s.wpc k .begin, mpc := afterSpawn c k }
   | .acq, "cacq" => if s.condOwner.isNone then some { s with condOwner := some 0, mpc := .consider } else none
   | .consider, "elock" =>
     match s.todo with
@@ -233,7 +234,7 @@ def stepMaster (c : Cfg) (s : State) (kind : String) : Option State :=
     some { s with queue := s.queue ++ [none], unfinished := s.unfinished + 1,
                   mpc := if k + 1 < c.workers then .sentinel (k + 1) else .joinW 0 }
   | .joinW k, "tjoin" =>
-    if s.wpc.getD k .notStarted = .exited then
+    if s.wpc k = .exited then
       some { s with mpc := if k + 1 < c.workers then .joinW (k + 1) else .returned }
     else none
   | _, _ => none
@@ -247,8 +248,8 @@ def updEntry (e : Env) (t : Nat) (f : Entry → Entry) : Env :=
 
 /-- one step of worker `w` -/
 def stepWorker (c : Cfg) (s : State) (w : Nat) (kind : String) : Option State :=
-  let setPc (s : State) (pc : WPc) : State := { s with wpc := listSet s.wpc w pc }
-  match s.wpc.getD w .notStarted, kind with
+  let setPc (s : State) (pc : WPc) : State := { s with wpc := upd s.wpc w pc }
+  match s.wpc w, kind with
   | .begin, "begin" => some (setPc s .get)
   | .get, "qget" =>
     match s.queue with
@@ -258,8 +259,8 @@ def stepWorker (c : Cfg) (s : State) (w : Nat) (kind : String) : Option State :=
   | .timeStart t, "time" =>
     -- start = time.time(); then task.do(env, config) runs: it sees the environment as it is now
     let start := s.clock + 1
-    some (setPc { s with clock := start, execCount := listSet s.execCount t (s.execCount.getD t 0 + 1),
-                         seen := listSet s.seen t (some (snapshot c s.env t)) } (.timeEnd t start))
+    some (setPc { s with clock := start, execCount := upd s.execCount t (s.execCount t + 1),
+                         seen := upd s.seen t (some (snapshot c s.env t)) } (.timeEnd t start))
   | .timeEnd t start, "time" =>
     let stop := s.clock + 1
     some (setPc { s with clock := stop }
@@ -287,11 +288,11 @@ def enabledMaster (s : State) : Bool :=
   | .acq => s.condOwner.isNone
   | .wake => s.notified && s.condOwner.isNone
   | .qjoin => s.unfinished = 0
-  | .joinW k => s.wpc.getD k .notStarted = .exited
+  | .joinW k => s.wpc k = .exited
   | .returned | .raised => false
 
 def enabledWorker (s : State) (w : Nat) : Bool :=
-  match s.wpc.getD w .notStarted with
+  match s.wpc w with
   | .notStarted | .exited => false
   | .get => !s.queue.isEmpty
   | .cacq => s.condOwner.isNone
@@ -302,7 +303,7 @@ def enabled (c : Cfg) (s : State) : List Nat :=
 
 def masterDone (s : State) : Bool := s.mpc = .returned || s.mpc = .raised
 def workerDone (s : State) (w : Nat) : Bool :=
-  let pc := s.wpc.getD w .notStarted
+  let pc := s.wpc w
   pc = .exited || pc = .notStarted
 
 /-- every thread has finished -/
